@@ -131,6 +131,14 @@ def run(c):
         ("longUrl", "GET", "/" + "u" * 7000 + "?q=" + "v" * 7000, [["Host", "h"]]),
         ("longUrl", "GET", "/" + "%C3%A9" * 2000, [["Host", "h"]]),
         ("plain", "GET", "/ok", [["Host", "h"]]),
+        # percent signs that do not start a complete escape, at every distance from the end of the path
+        ("malformedEscape", "GET", "/metadata/instance%2", [["Host", "h"]]),
+        ("malformedEscape", "GET", "/machine/plugins%a?comp=config", [["Host", "h"]]),
+        ("malformedEscape", "GET", "/x%z", [["Host", "h"]]),
+        ("malformedEscape", "GET", "/x%", [["Host", "h"]]),
+        ("malformedEscape", "GET", "/%", [["Host", "h"]]),
+        ("malformedEscape", "GET", "/a%zz/b%2%2?q=%&r=%4", [["Host", "h"]]),
+        ("malformedEscape", "POST", "/%2e%2", [["Host", "h"]]),
         # every form of request target RFC 9112 allows (a valid request whose target has no path at all included)
         ("connectRefusedByHost", "CONNECT", "169.254.169.254:80", [["Host", "169.254.169.254:80"]]),     # host answers 405
         ("connectAcceptedByHost", "CONNECT", "169.254.169.254:80", [["Host", "169.254.169.254:80"]]),    # host answers 200
@@ -264,6 +272,28 @@ def run(c):
     outcome("keyKeeperNotified", "kknotify", True, len(kpan), probe=True, tasks=seen_after > 0,
             detail={"panics": kpan[:2], "status_polls_after_notifications": seen_after})
     c.traces_validated += 1
+    # 4b. the host fails every status poll for a long time (250 in a row: an outage of an hour at the real interval), then
+    #     answers again: the key keeper task must still be polling and must follow the host
+    #     (the channel state is known -- disabled -- before the outage, so the polls come at the configured interval)
+    fsteps = [c12.plan("GET /secure-channel/status", 200, c12.status_doc(None, enabled=False)),
+              {"op": "start_key_keeper", "interval_ms": 1}, {"op": "sleep", "ms": 300}, {"op": "mark", "tag": "begin:kkoutage"},
+              c12.plan("GET /secure-channel/status", 503, "down", "text/plain"), {"op": "sleep", "ms": 50}, {"op": "mark_host_requests"},
+              {"op": "wait_host_requests", "target": "/secure-channel/status", "n": 250, "timeout_ms": 20000},
+              c12.plan("GET /secure-channel/status", 200, c12.status_doc(None)),
+              c12.plan("POST /secure-channel/key", 200, c12.key_doc(c12.G[0], c12.CAN["ok1"])),
+              c12.plan("POST /secure-channel/key/*", 200, ""), {"op": "sleep", "ms": 600},
+              c12.plan("GET /secure-channel/status", 200, c12.status_doc(c12.G[0])), {"op": "sleep", "ms": 300},
+              {"op": "key_state", "tag": "after-outage"}, {"op": "mark", "tag": "end:kkoutage"}]
+    oev, od, _ = rig.run_rig({"steps": fsteps, "drain_ms": 100}, "c13_kkout", timeout=120)
+    failed_polls = sum(1 for e in oev if e["e"] == "HostRecv" and e["target"].startswith("/secure-channel/status"))
+    opan = [{"location": e["location"], "message": e["message"][:160]} for e in oev if e["e"] == "Panic"]
+    waited = next((e for e in oev if e["e"] == "HostRequests"), {})
+    recovered = any(e["e"] == "KeyState" and e.get("guid") for e in oev)
+    if waited.get("n", 0) < 250 and not opan:
+        raise util.ToolError("C13 outage scenario: only %s failed status polls were made in 20 s" % waited.get("n"))
+    outcome("hostOutage", "kkoutage", True, len(opan), probe=True, tasks=recovered,
+            detail={"panics": opan[:2], "status_polls": failed_polls, "key_latched_after_the_outage": recovered})
+    c.extra["failed_status_polls_in_a_row"] = waited.get("n", 0)
     # 5a. Robust!Abandon + ActorReply, deterministically, for every client call of every shared-state actor: polled once,
     #     dropped, then the actor must still answer
     ac = robust_table([{"kind": "actor_cancel"}], "c13_actor")[0]
